@@ -10,6 +10,7 @@ import (
 	"encoding/json"
 	"flag"
 	"fmt"
+	"io"
 	"math"
 	"os"
 	"os/exec"
@@ -24,6 +25,9 @@ import (
 	"time"
 	"unsafe"
 )
+
+// Stdout is where verdict lines and the worker protocol go (a check may redirect os.Stdout to silence the code under test).
+var Stdout io.Writer = os.Stdout
 
 // Root is the /verif directory (cwd of every check).
 var Root = "/verif"
@@ -55,6 +59,8 @@ type Check struct {
 	Pre func(tier string, r *Rec)
 	// Sub handles check-specific sub-commands (raw arguments after the id); returns true when handled.
 	Sub func(args []string) bool
+	// HangSeconds: a worker whose case index has not changed for this long is killed (0 = default 600).
+	HangSeconds int
 	// Deadline for the whole enumeration (0 = default per tier).
 	QuickDeadline, ThoroughDeadline time.Duration
 }
@@ -265,7 +271,7 @@ func Main(c *Check, args []string) {
 		r.cur = o.Case
 		e.Run(o.Case, r)
 		d, _ := json.MarshalIndent(e.Describe(o.Case), "", " ")
-		fmt.Printf("case %d: %s\n", o.Case, d)
+		fmt.Fprintf(Stdout, "case %d: %s\n", o.Case, d)
 		printRec(r)
 		if len(r.Fails) > 0 {
 			os.Exit(1)
@@ -279,7 +285,7 @@ func printRec(r *Rec) {
 	for _, k := range sortedKeys(r.Fails) {
 		f := r.Fails[k]
 		d, _ := json.Marshal(f.First.Detail)
-		fmt.Printf("FAIL sig=%s n=%d what=%s detail=%s\n", f.Sig, f.Count, f.First.What, d)
+		fmt.Fprintf(Stdout, "FAIL sig=%s n=%d what=%s detail=%s\n", f.Sig, f.Count, f.First.What, d)
 	}
 	ks := make([]string, 0)
 	for k := range r.Counters {
@@ -287,7 +293,7 @@ func printRec(r *Rec) {
 	}
 	sort.Strings(ks)
 	for _, k := range ks {
-		fmt.Printf("  %s=%d\n", k, r.Counters[k])
+		fmt.Fprintf(Stdout, "  %s=%d\n", k, r.Counters[k])
 	}
 }
 
@@ -364,7 +370,7 @@ func workerMain(c *Check, o Opts) {
 		skip[v] = true
 	}
 	in := bufio.NewScanner(os.Stdin)
-	out := bufio.NewWriter(os.Stdout)
+	out := bufio.NewWriter(Stdout)
 	for in.Scan() {
 		line := strings.TrimSpace(in.Text())
 		if line == "" {
@@ -440,6 +446,10 @@ func (t *tailBuf) String() string {
 // RunEnumeration runs all cases of e in worker subprocesses and merges what they report.
 func RunEnumeration(c *Check, o Opts, e Enumeration, deadline time.Time) *Merged {
 	m := &Merged{Rec: *NewRec(), States: map[uint64]struct{}{}, Exhaustive: true}
+	hang := c.HangSeconds
+	if hang <= 0 {
+		hang = hangSeconds
+	}
 	n := e.N()
 	m.CasesTotal = n
 	bs := c.BlockSize
@@ -541,7 +551,7 @@ func RunEnumeration(c *Check, o Opts, e Enumeration, deadline time.Time) *Merged
 							cur := prog.get()
 							if cur != lastIdx {
 								lastIdx, lastChange = cur, time.Now()
-							} else if time.Since(lastChange) > hangSeconds*time.Second {
+							} else if time.Since(lastChange) > time.Duration(hang)*time.Second {
 								cmd.Process.Kill()
 								rr = <-ch
 								rr.err = fmt.Errorf("hang")
@@ -557,7 +567,7 @@ func RunEnumeration(c *Check, o Opts, e Enumeration, deadline time.Time) *Merged
 						if rr.err.Error() == "hang" {
 							m.Timeouts++
 							m.Exhaustive = false
-							m.Counters["cases_skipped_after_"+strconv.Itoa(hangSeconds)+"s_without_progress"]++
+							m.Counters["cases_skipped_after_"+strconv.Itoa(hang)+"s_without_progress"]++
 						} else if idx >= 0 {
 							m.Crashes++
 							sig, what := e.CrashSig(idx, tail.String())
@@ -747,6 +757,7 @@ func LoadKnown() []KnownLine {
 // Conclude prints verdict lines, writes replays and the evidence file; returns the exit code.
 func Conclude(id, level string, o Opts, cov map[string]interface{}, assumptions []string,
 	fails map[string]*FailAgg, t0 time.Time, replayBody func(f *FailAgg) interface{}) int {
+	suffix := os.Getenv("VERIF_EVIDENCE_SUFFIX") // a check made of several binaries writes partial evidence files that its script merges
 	known := map[string]KnownLine{}
 	for _, k := range LoadKnown() {
 		if k.Kind == "known" && k.Prop == id {
@@ -756,12 +767,12 @@ func Conclude(id, level string, o Opts, cov map[string]interface{}, assumptions 
 	violations := 0
 	knownHits := []string{}
 	failList := []interface{}{}
-	os.RemoveAll(filepath.Join(Root, "replays", id)) // replays belong to the run that wrote them
-	os.MkdirAll(filepath.Join(Root, "replays", id), 0755)
+	os.RemoveAll(filepath.Join(Root, "replays", id+suffix)) // replays belong to the run that wrote them
+	os.MkdirAll(filepath.Join(Root, "replays", id+suffix), 0755)
 	for _, sig := range sortedKeys(fails) {
 		f := fails[sig]
 		h := sha1.Sum([]byte(sig))
-		rp := filepath.Join("replays", id, hex.EncodeToString(h[:6])+".json")
+		rp := filepath.Join("replays", id+suffix, hex.EncodeToString(h[:6])+".json")
 		body := map[string]interface{}{"property": id, "tier": o.Tier, "sig": sig, "what": f.First.What, "count": f.Count}
 		if replayBody != nil {
 			body["replay"] = replayBody(f)
@@ -769,11 +780,11 @@ func Conclude(id, level string, o Opts, cov map[string]interface{}, assumptions 
 		bb, _ := json.MarshalIndent(body, "", " ")
 		os.WriteFile(filepath.Join(Root, rp), append(bb, '\n'), 0644)
 		if k, ok := known[sig]; ok {
-			fmt.Printf("KNOWN-FINDING: property=%s sig=%s %s (cases=%d, replay=%s)\n", id, sig, k.Text, f.Count, rp)
+			fmt.Fprintf(Stdout, "KNOWN-FINDING: property=%s sig=%s %s (cases=%d, replay=%s)\n", id, sig, k.Text, f.Count, rp)
 			knownHits = append(knownHits, sig)
 		} else {
 			violations++
-			fmt.Printf("VIOLATION property=%s replay=%s sig=%s cases=%d :: %s\n", id, rp, sig, f.Count, f.First.What)
+			fmt.Fprintf(Stdout, "VIOLATION property=%s replay=%s sig=%s cases=%d :: %s\n", id, rp, sig, f.Count, f.First.What)
 		}
 		failList = append(failList, map[string]interface{}{"sig": sig, "cases": f.Count, "what": f.First.What, "known": known[sig].Kind == "known", "replay": rp})
 	}
@@ -789,8 +800,8 @@ func Conclude(id, level string, o Opts, cov map[string]interface{}, assumptions 
 		"wall_s":      time.Since(t0).Seconds(),
 		"violations":  violations,
 	}
-	WriteEvidence(id, ev)
-	fmt.Printf("%s tier=%s evaluations=%v nontrivial=%v exhaustive=%v violations=%d known=%d wall=%.1fs\n",
+	WriteEvidence(id+suffix, ev)
+	fmt.Fprintf(Stdout, "%s tier=%s evaluations=%v nontrivial=%v exhaustive=%v violations=%d known=%d wall=%.1fs\n",
 		id, o.Tier, cov["evaluations"], cov["distinct_nontrivial"], cov["exhaustive"], violations, len(knownHits), time.Since(t0).Seconds())
 	if violations > 0 {
 		return 1
@@ -836,10 +847,10 @@ func replayMain(c *Check, o Opts) int {
 	cmd := exec.Command(self, c.ID, "--tier", body.Tier, "--case", strconv.FormatInt(body.Replay.CaseIndex, 10))
 	cmd.Stdout, cmd.Stderr = os.Stdout, os.Stderr
 	if err := cmd.Run(); err != nil {
-		fmt.Printf("replay of %s (sig %s): FAILS again (%v)\n", o.Replay, body.Sig, err)
+		fmt.Fprintf(Stdout, "replay of %s (sig %s): FAILS again (%v)\n", o.Replay, body.Sig, err)
 		return 1
 	}
-	fmt.Printf("replay of %s (sig %s): passes\n", o.Replay, body.Sig)
+	fmt.Fprintf(Stdout, "replay of %s (sig %s): passes\n", o.Replay, body.Sig)
 	return 0
 }
 
